@@ -5,6 +5,7 @@ CONSTANTS
   Node <- MCNode
   Delegates <- MCDelegates
   NsStates <- MCNsStates
+  IdStates <- MCIdStates
 INIT Init
 NEXT Next
 INVARIANTS WholeRepoOnlyWithoutSigrefs
